@@ -16,4 +16,15 @@ CLAIMS = {
     },
 }
 
+CLAIMS["C01"] = {
+    "text": "Decides, on the statement-level CFG of NumpyFileReader.read_chunk and its helpers, for every file and chunk size at once: (R1) no path lets bytes already read reach "
+            "`return None` without being handed to the format parser, raising, or being proven empty; every normal exit after a cut returns the cut buffer; (R2) the seek-back offset is "
+            "exactly delivered-size minus read-size (relative seek) or the kept tail is exactly the undelivered suffix, under the right mode guards, the carried tail is re-queued first "
+            "and reset after every cut, concatenation keeps read order, end-of-file is a short read; (R3) the end-of-file terminator is appended only at end of file; (R4) every "
+            "format's from_raw_buffer hands a prefix slice of the chunk to its buffer; (R5) the chunk stream stops at the first empty chunk only. Path rules are the right level: the "
+            "property quantifies over all chunk sizes, and a lost tail is a path in the code, not a value.",
+    "note": _NOTE + "Not decided: that each format's cut index is the last complete entry; CRLF and gzip specifics beyond the carry-over structure; equality of parsed values.",
+    "technique": "CFG path queries (pending-data discharge, dominance of guards) + linear normal forms of seek/slice arithmetic (AST)",
+}
+
 NOT_APPLICABLE = {}
